@@ -1385,7 +1385,7 @@ def gen_malformed(rng, entry):
             at = rng.randrange(n)
             a = case["_atoms"][at]
             pt = _pt()
-            how = rng.choice(["ZvsE", "badA", "ghost", "mass"])
+            how = rng.choice(["ZvsE", "badA", "ghost", "mass", "labelmass", "labelA", "labelE"])
             if how == "ZvsE":
                 otherZ = a["Z"] % 100 + 1
                 kw["elez"] = [x["Z"] for x in case["_atoms"]]
@@ -1398,6 +1398,32 @@ def gen_malformed(rng, entry):
                 kw["elea"] = [x["A"] for x in case["_atoms"]]
                 kw["elea"][at] = max(pt._el2a2mass[a["E"]].keys()) + 40
                 kw.pop("mass", None)
+            elif how in ("labelmass", "labelA", "labelE"):
+                # a full-spec label (speclabel=True: the label carries clues) contradicting the per-atom arrays: its @mass vs the
+                # mass array, its leading mass number vs elea, its symbol vs elem
+                if not st["speclabel"] or (how == "labelmass" and st["nonphysical"] is None):
+                    continue
+                kw["elbl"] = [x["E"] for x in case["_atoms"]]
+                kw.pop("elez", None)
+                if how == "labelmass":
+                    kw["mass"] = [x["mass"] for x in case["_atoms"]]
+                    kw["elbl"][at] = f"{a['E']}@{a['mass'] + 0.25 + 0.01 * rng.randint(1, 40):.5f}"
+                    kw.pop("elea", None)
+                elif how == "labelA":
+                    isos = sorted(pt._el2a2mass[a["E"]].keys())
+                    if len(isos) < 2:
+                        continue
+                    aa = [x for x in isos if x != a["A"]]
+                    kw["elea"] = [x["A"] for x in case["_atoms"]]
+                    kw["elea"][at] = aa[0]
+                    kw["elbl"][at] = f"{aa[-1]}{a['E']}" if aa[-1] != aa[0] else f"{isos[0] if isos[0] != aa[0] else isos[1]}{a['E']}"
+                    if kw["elbl"][at].startswith(str(kw["elea"][at])) and len(str(kw["elea"][at])) == len(kw["elbl"][at]) - len(a["E"]):
+                        continue
+                    kw.pop("mass", None)
+                else:
+                    kw["elem"] = [x["E"] for x in case["_atoms"]]
+                    other = "He" if a["E"] != "He" else "Ne"
+                    kw["elbl"][at] = other
             elif how == "ghost":
                 if not st["speclabel"]:
                     continue
